@@ -13,7 +13,9 @@ with the single equation ChildPub(Pub(k), s) = Pub(Child(k, s)); NormP normalise
            delete under right/wrong passwords); every transition with its call path replayed on a real
            pseudohsm directory (ImportKeyFromMnemonic, LoadChainKDKey, XSign, ResetPassword, XDelete).
   E/T    : random seeds, random non-hardened paths up to depth 8, random splits and near-miss variants
-           recorded as terms; TLC normalises them (KeyAlgebraCases.tla) and the driver compares.
+           recorded as terms; TLC normalises them (KeyAlgebraCases.tla) and the driver compares. Dense
+           chains (700 / 4000 fresh seeds x a depth-8 path) check commutation and one sign/verify pairing
+           at every prefix: 5600 / 32000 distinct derivation steps per run.
 """
 import json
 import os
@@ -32,12 +34,12 @@ def run(ctx):
     quick = ctx.tier == "quick"
     tier = "quick" if quick else "thorough"
     samples = []
-    rt = ctx.tlc_design("fn/KeyAlgebraTable", "cfg/KeyAlgebraTable.%s.cfg" % tier, timeout=2400, tag="table")
+    rt = ctx.tlc_design("fn/KeyAlgebraTable", "cfg/KeyAlgebraTable.%s.cfg" % tier, timeout=2400, tag="table", workers=8)
     ht = ctx.harness([b, "table", rt.path], timeout=1500)
     if rt.nexports < 99 or (ht["summary"].get("equalities", 0) < 4000 and not ht["violations"]):
         raise Infra("table unexpectedly small: %s" % ht["summary"])
     samples += ht["samples"][:1]
-    rs = ctx.tlc_design("fn/KeyStoreSeq", "cfg/KeyStoreSeq.%s.cfg" % tier, timeout=900, tag="keystore")
+    rs = ctx.tlc_design("fn/KeyStoreSeq", "cfg/KeyStoreSeq.%s.cfg" % tier, timeout=900, tag="keystore", workers=8)
     hs = ctx.harness([b, "store", rs.path, os.path.join(ctx.work, "keystores")], timeout=2400)
     if hs["summary"].get("behaviours") != rs.nexports and not hs["violations"]:
         raise Infra("key store: replayed %s of %d behaviours" % (hs["summary"].get("behaviours"), rs.nexports))
@@ -69,15 +71,18 @@ def run(ctx):
         samples=samples,
         table_equalities=t["equalities"], table_verifications=t["verifications"], table_decryptions=t["decryptions"],
         keystore_behaviours=hs["summary"]["behaviours"], keystore_steps=hs["summary"]["steps"], keystore_shapes=hs["summary"]["shapes"],
-        recorded_cases=ncases, recorded_depth8=hg["summary"]["depth8"], recorded_shapes=hc["summary"]["shapes"],
+        recorded_cases=ncases, recorded_depth8=hg["summary"]["depth8"],
+        recorded_chain_derivation_steps=hg["summary"]["chain_derivation_steps"], recorded_shapes=hc["summary"]["shapes"],
         negative_control="flipped expectation of case %s reported" % docs[0][0]["i"],
         exhaustive=False,
         rule="E: all public-key terms over 2 seeds x %d selectors x depth<=3 with every private/public split: all unordered pairs, "
              "all (private key, signed message, verified message) triples, Enc/Dec over seeds x passwords^2; R: every transition of "
              "the key-store machine up to %d calls with its path; recorded: seeded random paths up to depth 8 with splits and "
-             "near-miss variants (other seed, one selector changed, swapped, prefix, extended). distinct_nontrivial = expected "
+             "near-miss variants (other seed, one selector changed, swapped, prefix, extended), plus dense chains: fresh seeds x one "
+             "depth-8 path each, at every prefix the all-private vs all-public commutation and one sign/verify pairing (%d distinct "
+             "derivation steps). distinct_nontrivial = expected "
              "equalities between syntactically different terms and expected successful verifications"
-             % ((2, 3) if quick else (3, 5)),
+             % ((2, 3, 5600) if quick else (3, 5, 32000)),
     ), assumptions=[
         "distinct terms denote distinct values (HMAC-SHA512 derivation, ed25519 and scrypt/AES are collision-free on the generated atoms)",
         "selectors, seeds, messages and passwords are concretised as distinct seeded random byte strings",
